@@ -76,16 +76,9 @@ func (r ReceiverReport) Marshal() ([]byte, error) {
 		return nil, errTooManyReports
 	}
 
-	pe := make([]byte, len(r.ProfileExtensions))
-	copy(pe, r.ProfileExtensions)
-
 	// if the length of the profile extensions isn't devisible
-	// by 4, we need to pad the end.
-	for (len(pe) & 0x3) != 0 {
-		pe = append(pe, 0)
-	}
-
-	rawPacket = append(rawPacket, pe...)
+	// by 4, the end is zero padded (MarshalSize accounts for it).
+	copy(packetBody[ssrcLength+receptionReportLength*len(r.Reports):], r.ProfileExtensions)
 
 	hData, err := r.Header().Marshal()
 	if err != nil {
@@ -163,7 +156,7 @@ func (r *ReceiverReport) MarshalSize() int {
 	for _, rep := range r.Reports {
 		repsLength += rep.len()
 	}
-	return headerLength + ssrcLength + repsLength
+	return headerLength + ssrcLength + repsLength + len(r.ProfileExtensions) + getPadding(len(r.ProfileExtensions))
 }
 
 // Header returns the Header associated with this packet.
@@ -171,7 +164,7 @@ func (r *ReceiverReport) Header() Header {
 	return Header{
 		Count:  uint8(len(r.Reports)),
 		Type:   TypeReceiverReport,
-		Length: uint16((r.MarshalSize()/4)-1) + uint16(getPadding(len(r.ProfileExtensions))),
+		Length: uint16((r.MarshalSize() / 4) - 1),
 	}
 }
 
